@@ -65,5 +65,8 @@ def run(tier, seed, replay=None):
              "with ??), operands held in variables; then the same pairs with the operands arriving as list elements, nested elements, function "
              "results, map entries or bare literals (quick: one shape for a third of the pairs; thorough: every pair under every shape), then "
              "random operator trees of depth <= 4 over the same leaves (a quarter of the leaves read back from a list or map literal); values compared with dynamic type and "
-             "float bits (NaN one class); string repetition by huge counts is excluded (astronomical allocation)",
+             "float bits (NaN one class); string repetition by huge counts is excluded (astronomical allocation); directed programs on the "
+             "narrower number kinds a script can make (float32; int, int32, rune, uint, uint32, uint64, byte read from typed slices): "
+             "37 operator forms per integer kind against the int64 result, float / string operands on either side, float32 under + - * / "
+             "unary - and the ordering comparisons (implementation only: the model has no narrow kinds)",
         design_ref="DESIGN.md §4 C05", expectations=EXPECT, max_dropped=0.05)
